@@ -59,6 +59,7 @@ type POCase struct {
 	Valid       bool       `json:"valid"`
 	Names       []string   `json:"names"`
 	PhStr       string     `json:"phstr"`
+	Key         string     `json:"key"`
 	Feat        string     `json:"feat"`
 	Msgid       string     `json:"msgid"`
 	MsgidPlural string     `json:"msgid_plural"`
@@ -72,7 +73,7 @@ func (c *POCase) isPlural() bool { return len(c.Parts) == 1 && c.Parts[0].K == "
 
 // Run is the entry point for C11.
 func Run(ctx *core.Ctx) {
-	ctx.Rule = "cases: messages = bodies of <= 3 (thorough 4) parts from PoolC11 of SoyPO.tla ($a.x $b.x $x $x_1 $n+1 ($n+1)*2 $n+1*2 <a> <a href=x> </a> <br/>, two texts) and plurals {case 1}/{default} over 2 subjects with case bodies of <= 1 (thorough 2) parts from a 6-part pool, all enumerated by TLC with expected msgid/msgid_plural/var= and expected renderings for n in {0,1,2,3,5,11,21,22,101}; every message is placed at top level, every third also inside a foreach and every third behind a call; catalogues: none, and identity / reversing / partial for the locales ja (1 form), en (2), ru (3); rendered by soyhtml and by the generated JavaScript in node. A case is non-trivial if it has a placeholder or a plural; distinct by family id"
+	ctx.Rule = "cases: messages = bodies of <= 3 (thorough 4) parts from PoolC11 of SoyPO.tla ($a.y $b.y $y $y_1 $n+1 ($n+1)*2 $n+1*2 <a> <a href=x> </a> <br/>, two texts) and plurals {case 1}/{default} over 2 subjects with case bodies of <= 1 (thorough 2) parts from a 6-part pool, all enumerated by TLC with expected msgid/msgid_plural/var= and expected renderings for n in {0,1,2,3,5,11,21,22,101}; every message is placed at top level, every third also inside a foreach and every third behind a call; catalogues: none, and identity / reversing / partial for the locales ja (1 form), en (2), ru (3); rendered by soyhtml and by the generated JavaScript in node. A case is non-trivial if it has a placeholder or a plural; distinct by family id"
 	ctx.Assumptions = append(ctx.Assumptions,
 		"oracle = SoyPO.tla on top of SoyMsg.tla and SoyExpr.tla; messages PO cannot carry (plural cases other than {1, default}, empty msgid) are only checked to be refused / are not judged",
 		"print values contain no HTML-special characters (autoescaping is C03's subject); the plural subject is a non-negative integer",
@@ -151,7 +152,7 @@ func runDeviations(ctx *core.Ctx) {
 			return
 		}
 		cex := ""
-		for _, ln := range strings.Split(res.Trace, "\n") {
+		for _, ln := range strings.Split(res.Stdout, "\n") {
 			if strings.Contains(ln, "pcase =") {
 				cex = strings.TrimSpace(ln)
 			}
